@@ -54,10 +54,14 @@ def ballot_vote_lemma(opts):
             e.assume(z3.And(wd >= 1, wd <= 6))
 
     def body(e):
-        V = values.ArithmeticClass(Options(dict(opts)))
-        E = FakeE()
-        E.V, E.V0, E.V1 = V, V(0), V(1)
-        blt = Election.Ballot(E, SymInt(m), [1])
+        # a real ballot of a real election, built through the public API (no dependence on Ballot's constructor signature)
+        from droop.profile import ElectionProfile
+        o2 = dict(rule='wigm')
+        o2.update({k: opts[k] for k in ('arithmetic', 'precision', 'guard', 'display') if opts.get(k) is not None})
+        E = Election(ElectionProfile(data='2 1\n1 1 0\n1 2 0\n0\n"A"\n"B"\n"T"\n'), o2)
+        V = E.V
+        blt = E.ballots[0]
+        blt.multiplier = V(SymInt(m))
         if rational:
             blt.weight = V(SymInt(w), e.realize(wd))
         else:
